@@ -402,7 +402,45 @@ class CFG(object):
                 out.append((nd.test, pol))
         if expand:
             out = expand_conds(out)
+            out = self._expand_named(out, node)
         return out
+
+    def _expand_named(self, conds, node, depth=0):
+        """A condition on a local that names a boolean expression (``flag = a and not b`` ... ``if flag:``) also
+        gives the condition on that expression, provided the local has exactly one assignment, that assignment
+        dominates ``node`` and nothing in between re-binds a name the expression reads."""
+        if depth > 3:
+            return conds
+        extra = []
+        for t, p in conds:
+            if not isinstance(t, ast.Name):
+                continue
+            asg = [nd for nd in self.nodes if nd.kind == 'stmt' and isinstance(nd.stmt, ast.Assign) and len(nd.stmt.targets) == 1
+                   and isinstance(nd.stmt.targets[0], ast.Name) and nd.stmt.targets[0].id == t.id]
+            stmts = set(id(nd.stmt) for nd in asg)
+            others = [nd for nd in self.nodes if nd.kind in ('stmt', 'head') and nd.stmt is not None and id(nd.stmt) not in stmts
+                      and self._kills(t, [nd.id])]
+            if len(stmts) != 1 or others:
+                continue
+            val = asg[0].stmt.value
+            if not isinstance(val, (ast.BoolOp, ast.Compare, ast.UnaryOp, ast.Call, ast.Attribute, ast.Name)):
+                continue
+            ids = [nd.id for nd in asg]
+            if not self.must_pass(ids, self.entry, node):
+                continue
+            after = [m for x in ids for m in self.succ[x]]
+            mid = (self.reach(after, avoid=ids) & self.coreach([node], avoid=ids)) - {node}
+            if self._kills(val, mid):
+                continue
+            extra.append((val, p))
+        if not extra:
+            return conds
+        extra = expand_conds(extra)
+        known = set((norm(t), p) for t, p in conds)
+        new = [(t, p) for t, p in extra if (norm(t), p) not in known]
+        if not new:
+            return conds
+        return conds + self._expand_named(new, node, depth + 1)
 
     def conds_at_stmt(self, stmt, expand=True):
         """Conditions holding at every node of ``stmt`` (intersection over copies)."""
